@@ -11,6 +11,12 @@ import DendroModel.Gen.Tables
 * `assign`, `lookup` : label → node label / taxon (`NexusTaxonSymbolMapper.lookup_taxon_symbol`)
 * `parseStmts`    : `NewickReader._parse_tree_statement` driven by `tree_iter`
 * `rootingOf`     : `_process_tree_comments` + `_parse_tree_rooting_state`
+* `treesBlockText`, `translateText`, `defaultTable`, `nexusBlock` (+ `nexusTranslate`, `nexusTreeStmts`, `nexusBlockLoop`) :
+                    `NexusWriter._write_trees_block` / `_set_and_write_translate_block`, `NexusReader._parse_trees_block`
+* `taxaBlockText`, `nexusDocText`, `nexusDoc` (+ `nexusDimensions`, `nexusTaxlabels`, `nexusTaxaLoop`, `nexusDocLoop`) :
+                    `NexusWriter._write` / `_write_taxa_block`, `NexusReader._parse_nexus_stream` / `_parse_taxa_block` /
+                    `_parse_dimensions_statement` / `_parse_taxlabels_statement` (the namespace's MEMBER order)
+  NeXML (element structure) is in `Model/C02Nexml.lean`.
 
 Where the unrepaired code contradicts the property the model follows the property: a quoted token is
 always a label (`kind`), never punctuation. -/
@@ -487,6 +493,12 @@ def translateText (o : WOpts) (tm : List (Str × Str)) : Str :=
   indent8 ++ (['T', 'r', 'a', 'n', 's', 'l', 'a', 't', 'e', '\n'] ++ (translateEntries o tm ++
     (indent8 ++ [' ', ' ', ' ', ' ', ' ', ';', '\n'])))
 
+/-- the default TRANSLATE table (`translate_tree_taxa=True`): one entry per namespace member IN MEMBER ORDER, the token being
+    the member's ACCESSION index + 1 (`str(taxon_namespace.accession_index(t)+1)`) — not its position: after `sort()`,
+    `reverse()` or a removal the two differ.  `ns`: (label, accession index) in member order -/
+def defaultTable (ns : List (Str × Nat)) : List (Str × Str) :=
+  ns.map (fun p => ((toString (p.2 + 1)).toList, p.1))
+
 /-- the TREES block of a single-namespace document -/
 def treesBlockText (o : WOpts) (tm : List (Str × Str)) (trees : List (Str × WT)) : Str :=
   beginTrees ++ (translateText o tm ++ (treeLines o trees ++ endBlock))
@@ -592,6 +604,126 @@ def nexusBlock (o : ROpts) (ns : List Str) (text : Str) : Option (List (Str × P
     else none
   | _ => none
 
+/-! ### NEXUS: the whole document (`#NEXUS`, TAXA block, TREES block) -/
+
+/-- `NexusWriter._write_taxa_block` for an untitled block (single namespace: no TITLE / LINK lines):
+    `BEGIN TAXA;`, `DIMENSIONS NTAX=n;`, `TAXLABELS`, the label list, `END;` -/
+def taxaBlockText (ps uu : Bool) (ns : List Str) : Str :=
+  ['B', 'E', 'G', 'I', 'N', ' ', 'T', 'A', 'X', 'A', ';', '\n'] ++
+  ([' ', ' ', ' ', ' ', 'D', 'I', 'M', 'E', 'N', 'S', 'I', 'O', 'N', 'S', ' ', 'N', 'T', 'A', 'X', '='] ++
+  ((toString ns.length).toList ++ ([';', '\n'] ++
+  ([' ', ' ', ' ', ' ', 'T', 'A', 'X', 'L', 'A', 'B', 'E', 'L', 'S', '\n'] ++ (taxlabelsText ps uu ns ++ endBlock)))))
+
+/-- `NexusWriter._write` for one tree list over one namespace: the `#NEXUS` line, the TAXA block, the TREES block -/
+def nexusDocText (o : WOpts) (ns : List Str) (tm : List (Str × Str)) (trees : List (Str × WT)) : Str :=
+  ['#', 'N', 'E', 'X', 'U', 'S', '\n', '\n'] ++ (taxaBlockText o.ps o.uu ns ++ treesBlockText o tm trees)
+
+/-- `str.isdigit` on ASCII text (a non-ASCII digit is refused: `int()` of it is outside the model) -/
+def isDigits (s : Str) : Bool := !s.isEmpty && s.all Char.isDigit
+/-- `int(token)` for a digit string -/
+def natOf (s : Str) : Nat := Nat.ofDigitChars 10 s 0
+
+/-- `_parse_dimensions_statement`, positioned after `DIMENSIONS`: the NTAX value (if given) and the tokens after the `;`.
+    (NCHAR is checked like NTAX and ignored.) -/
+def nexusDimensions : Nat → List TokE → Option Nat → Option (Option Nat × List TokE)
+  | 0, _, _ => none
+  | _ + 1, [], _ => none
+  | f + 1, t :: r, ntax =>
+    let u := ucase t.text
+    if u == [';'] then some (ntax, r)
+    else if u == ['N', 'T', 'A', 'X'] || u == ['N', 'C', 'H', 'A', 'R'] then
+      match r with
+      | e :: v :: r' =>
+        if e.text == ['='] then
+          (if isDigits (ucase v.text) then
+            nexusDimensions f r' (if u == ['N', 'T', 'A', 'X'] then some (natOf v.text) else ntax)
+           else none)
+        else none
+      | _ => none
+    else if u == ['B', 'E', 'G', 'I', 'N'] then none
+    else nexusDimensions f r ntax
+
+/-- the "too many taxa" check: the file specified NTAX, the namespace already holds that many, no caller's namespace -/
+def ntaxFull (ntax : Option Nat) (attached : Bool) (k : Nat) : Bool :=
+  match ntax with
+  | some n => decide (n ≤ k) && !attached
+  | none => false
+
+/-- `_parse_taxlabels_statement`, positioned after `TAXLABELS`: every token up to the unquoted `;` is a label; a label
+    already in the namespace (up to the case folding) is that taxon, a new one is appended unless the file-specified NTAX
+    is reached (`attached`: reading into a caller's namespace switches that check off) -/
+def nexusTaxlabels (cf : Char → Char) (ntax : Option Nat) (attached : Bool) : List TokE → List Str → Option (List Str × List TokE)
+  | [], _ => none
+  | t :: r, ns =>
+    if t.text == [';'] && !t.quoted then some (ns, r)
+    else if ns.any (fun x => lowerWith cf x == lowerWith cf t.text) then nexusTaxlabels cf ntax attached r ns
+    else if ntaxFull ntax attached ns.length then none
+    else nexusTaxlabels cf ntax attached r (ns ++ [t.text])
+
+/-- the command loop of `_parse_taxa_block`, positioned after `BEGIN TAXA;`: (namespace if a TAXLABELS command was seen,
+    NTAX, tokens after the block's `END;`).  A TITLE command (several namespaces in one file) is outside the model: refused. -/
+def nexusTaxaLoop (cf : Char → Char) (attached : Option (List Str)) : Nat → List TokE → Option (List Str) → Option Nat →
+    Option (Option (List Str) × Option Nat × List TokE)
+  | 0, _, _, _ => none
+  | _ + 1, [], _, _ => none
+  | f + 1, t :: r, ns, ntax =>
+    let u := ucase t.text
+    if u == ['E', 'N', 'D'] || u == ['E', 'N', 'D', 'B', 'L', 'O', 'C', 'K'] then some (ns, ntax, skipToSemi r)
+    else if u == ['T', 'I', 'T', 'L', 'E'] then none
+    else if u == ['D', 'I', 'M', 'E', 'N', 'S', 'I', 'O', 'N', 'S'] then
+      match nexusDimensions (r.length + 1) r ntax with
+      | none => none
+      | some (ntax', r') => nexusTaxaLoop cf attached f r' ns ntax'
+    else if u == ['T', 'A', 'X', 'L', 'A', 'B', 'E', 'L', 'S'] then
+      match nexusTaxlabels cf ntax attached.isSome r (match ns with | some l => l | none => attached.getD []) with
+      | none => none
+      | some (ns', r') => nexusTaxaLoop cf attached f r' (some ns') ntax
+    else nexusTaxaLoop cf attached f r ns ntax
+
+/-- what a document yields: the namespace, and the named trees of its TREES block -/
+structure Doc where
+  ns : List Str
+  tokmap : List (Str × Str)
+  trees : List (Str × PT)
+
+/-- the block loop of `_parse_nexus_stream`, positioned after `#NEXUS`: skip to `BEGIN`, dispatch on the block name.
+    Modelled: one TAXA block (the namespace; `attached` = the caller's namespace when one is handed in) followed by one
+    TREES block, which ends the reading (what a writer emits for one tree list).  Refused (`none`) rather than guessed:
+    a second TAXA block, a TREES block before any TAXA block, any other block. -/
+def nexusDocLoop (o : ROpts) (attached : Option (List Str)) (atEof : Bool) : Nat → List TokE → Option (List Str) → Option Doc
+  | 0, _, _ => none
+  | _ + 1, [], ns => (match ns with | some l => some ⟨l, [], []⟩ | none => none)
+  | f + 1, t :: r, ns =>
+    if ucase t.text != ['B', 'E', 'G', 'I', 'N'] then nexusDocLoop o attached atEof f r ns
+    else
+      match r with
+      | [] => none
+      | b :: r' =>
+        let u := ucase b.text
+        if u == ['T', 'A', 'X', 'A'] then
+          (if ns.isSome then none else
+            match nexusTaxaLoop o.cf attached (r'.length + 1) (skipToSemi r') none none with
+            | some (some l, some _, rest) => nexusDocLoop o attached atEof f rest (some l)
+            | _ => none)
+        else if u == ['T', 'R', 'E', 'E', 'S'] then
+          match ns with
+          | none => none
+          | some l =>
+            match nexusBlockLoop o atEof (r'.length + 1) (skipToSemi r') ⟨[], l, true⟩ [] with
+            | none => none
+            | some (ts, m) => some ⟨m.ns, m.tokmap, ts⟩
+        else none
+
+/-- `TreeList.get(data=text, schema="nexus", …)` (`attached` = `taxon_namespace=` when given) -/
+def nexusDoc (o : ROpts) (attached : Option (List Str)) (text : Str) : Option Doc :=
+  let ts := tokenizeAll o.pu text
+  if !ts.ok then none else
+  match ts.toks with
+  | h :: rest =>
+    if ucase h.text == ['#', 'N', 'E', 'X', 'U', 'S'] then nexusDocLoop o attached ts.atEof (rest.length + 1) rest none
+    else none
+  | [] => none
+
 /-! ### rendering for the protocol -/
 
 def hexS (s : Str) : String := if s.isEmpty then "=" else String.ofList (hex6 s)
@@ -619,5 +751,10 @@ def renderNexus : Option (List (Str × PT) × Mapper) → String
   | none => "ERR"
   | some (ts, m) => "ns " ++ ",".intercalate (m.ns.map hexS) ++ " trees " ++ toString ts.length ++
       String.join (ts.map (fun p => " | " ++ hexS p.1 ++ " " ++ renderPT p.2))
+
+def renderDoc : Option Doc → String
+  | none => "ERR"
+  | some d => "ns " ++ ",".intercalate (d.ns.map hexS) ++ " trees " ++ toString d.trees.length ++
+      String.join (d.trees.map (fun p => " | " ++ hexS p.1 ++ " " ++ renderPT p.2))
 
 end DendroModel.C02
